@@ -205,21 +205,30 @@ def gen_metrics(rnd, n_einsums=None, force=None):
         cands = [r for r in lo_i if sum(1 for t in ei["inputs"] if r in decl[t]) >= 2]
         rnd.shuffle(cands)
         for c in isects:
-            ok = [r for r in cands if comps[c]["type"] == "leader-follower" or
-                  sum(1 for t in ei["inputs"] if r in decl[t]) == 2 or rnd.random() < 0.1]
-            if ok and rnd.random() < 0.7:
+            if rnd.random() >= 0.75:
+                continue
+            lines = []
+            for _ in range(rnd.choice([1, 1, 2])):
+                ok = [r for r in cands if comps[c]["type"] == "leader-follower" or
+                      sum(1 for t in ei["inputs"] if r in decl[t]) == 2 or rnd.random() < 0.1]
+                if not ok:
+                    break
                 r = ok[0]
                 cands.remove(r)
                 holders = [t for t in ei["inputs"] if r in decl[t]]
-                b_lines += ["  - component: %s%s" % (c, sfx), "    bindings:", "    - rank: %s" % r]
+                lines.append("    - rank: %s" % r)
                 if comps[c]["type"] == "leader-follower":
                     # leader = first factor of the term in written order (KF-6 otherwise)
                     written = [a.name for a in exprs[i].terms[0].tensors() if a.name in holders]
                     leader = written[0] if rnd.random() < 0.8 else rnd.choice(written)
                     if leader != written[0]:
                         ei["lf_leader_not_first"] = True
-                    b_lines.append("      leader: %s" % leader)
+                    lines.append("      leader: %s" % leader)
+            if lines:
+                b_lines += ["  - component: %s%s" % (c, sfx), "    bindings:"] + lines
                 ei["bound"][c] = True
+                if len([l for l in lines if "rank:" in l]) > 1:
+                    ei["multi_rank_isect"] = True
         if "Seq0" in comps and rnd.random() < 0.7:
             k = rnd.randint(1, len(lo_i))
             rs = rnd.sample(lo_i, k)
@@ -233,6 +242,8 @@ def gen_metrics(rnd, n_einsums=None, force=None):
     tags = ["metrics", "m-einsums%d" % n, "m-configs%d" % nconf]
     if any("lf_leader_not_first" in ei for ei in einfo):
         tags.append("lf-leader-not-first")
+    if any("multi_rank_isect" in ei for ei in einfo):
+        tags.append("m-multi-rank-intersector")
     for cn in confs.values():
         for c, d in cn["components"].items():
             if d.get("class") == "intersector":
